@@ -360,6 +360,17 @@ def _gen_case(rng, tier, i):
             ops.append(["serxml", m_, ts])
         elif kind == "serdoc":
             ops.append(["serdoc", mgr(), rng.choice(DOC_FORMATS), _doc_triples(rng, absns, counter, rng.randint(1, 4))])
+    if rng.random() < 0.05:
+        # `ns<k>` bound to the empty IRI: falsy but not None — the `ns<k>` loops of compute_qname(_strict) take it for free,
+        # and binding it anew unbinds the empty namespace (the shape excluded by xml_names_expand_partial)
+        k_ = rng.randint(0, len(ops) // 2)
+        ops.insert(k_, ["bind", 0, rng.choice(["ns1", "ns1", "ns2"]), "", True, rng.random() < 0.5])
+        # … followed, sooner or later, by a strict computation that has to invent a prefix (local name `1a`: the strict
+        # split moves the digit into the namespace)
+        u_ = rng.choice(absns) + rng.choice(["1a", "٣x"])
+        ops.insert(rng.randint(k_ + 1, len(ops)), ["qstrict", 0, u_] if rng.random() < 0.5 else ["cqs", 0, u_, True])
+        if "" not in vn:
+            vn.append("")
     case = {"cfg": cfg, "bn": bn, "bn1": bn1, "vp": vp, "vn": vn, "ops": ops}
     if cfg == "foreign":
         case.update(_foreign_fields(rng))
@@ -454,6 +465,7 @@ def xml_order(store_kind, triples, k):
     return preds, stmts
 
 
+_XML_PROP = re.compile(r"^    <([^\s>/!?]+)", re.M)  # property elements sit one level below rdf:Description
 _XMLNS_ATTR = re.compile(r"""\sxmlns(?::([^\s=]+))?=(?:"([^"]*)"|'([^']*)')""")
 
 
@@ -528,7 +540,12 @@ def canon(line, user):
     gen = {p: "G[" + n + "]" for p, n in lp if p not in user}
     if out.startswith("doc "):
         dd = [x.split(">", 1) for x in out[4:].split(" ")] if len(out) > 4 else []
-        out = "doc " + " ".join(sorted(gen.get(p, p) + ">" + n for p, n in dd))
+        def rnq(p):  # `!prefix:local` = an element name of an RDF/XML document
+            if p.startswith("!") and ":" in p:
+                a, l = p[1:].split(":", 1)
+                return "!" + gen.get(a, a) + ":" + l
+            return gen.get(p, p)
+        out = "doc " + " ".join(sorted(set(rnq(p) + ">" + n for p, n in dd)))
     rn = lambda p: gen.get(p, p)
     L2 = sorted(rn(p) + ">" + n for p, n in lp)
     pp = [x.split(">", 1) for x in P[2:].split(" ")] if len(P) > 2 else []
@@ -682,7 +699,19 @@ class Impl:
                     "prefix table %r" % (fmt, sorted(set(ts) - back)[:2], sorted(back - set(ts))[:2], sorted(table)))
         except Exception as e:  # noqa: BLE001
             self.doc_problems.append("docroundtrip: the %s output cannot be parsed: %s" % (fmt, str(e)[:120]))
-        return "doc " + " ".join(sorted(p + ">" + n for p, n in table))
+        extra = []
+        if fmt == "xml":
+            # every property element name written, expanded through the document's OWN xmlns table (the model
+            # pairs the same name with the predicate it stands for: equal = the name expands back to the predicate)
+            d = dict(table)
+            for q in _XML_PROP.findall(text):
+                a, l = q.split(":", 1) if ":" in q else ("", q)
+                exp = d[a] + l if a in d else "?undeclared"
+                extra.append("!" + q + ">" + exp)
+                if exp not in {str(t_[1]) for t_ in ts}:
+                    self.doc_problems.append("docname: element %r of the xml output expands to %r, not a predicate of the graph "
+                                             "(xmlns table %r)" % (q, exp, sorted(table)))
+        return "doc " + " ".join(sorted(set([p + ">" + n for p, n in table] + extra)))
 
     def graph(self, m):
         if self.cfg == "dataset" and m == 0 and self.k % 2 == 1:
